@@ -20,6 +20,15 @@ def unhx(s):
     return binascii.unhexlify(s)
 
 
+def asan_env():
+    """vlib's sanitizer options with a shorter allocation-stack depth and a smaller quarantine: every case creates and
+    frees a whole event_base/evhttp, and unwinding 12 frames per malloc/free dominated the run time.  Error stacks (the
+    source of violation keys) are still unwound in full; use-after-free is still caught within a 48 MB window."""
+    o = vlib.sanitizer_env(FLAVOR)["ASAN_OPTIONS"]
+    o = re.sub(r"malloc_context_size=\d+", "malloc_context_size=5", o)
+    return {"ASAN_OPTIONS": o + ":quarantine_size_mb=48"}
+
+
 # ----------------------------------------------------------------- running
 class Case(object):
     """One stream (or response script) executed under several segmentations."""
@@ -72,7 +81,7 @@ def run_cases(res, prop, cases, tag):
                     f.write(ln + "\n")
                     n += 1
         jobs.append(dict(args=["--arg", path], tag="%s-%s-%d" % (prop, tag, s), replay=dict(script=path), nlines=n, path=path))
-    outs = vlib.run_jobs(res, FLAVOR, HARNESS, jobs, timeout=1200)
+    outs = vlib.run_jobs(res, FLAVOR, HARNESS, jobs, timeout=1200, env_extra=asan_env())
     ncase = 0
     for o in outs:
         # attribute sanitizer reports to the script line (ATCASE) so that replay can re-run exactly it
@@ -159,6 +168,12 @@ def out_statuses(out):
 
 def server_signature(r):
     return (tuple((q["t"], q["u"], q["v"], tuple(q["h"]), q["b"]) for q in r["reqs"]), final_out(r["out"]), bool(r["closed_before_fin"]))
+
+
+def server_signature_limits(r):
+    """C25: 400 and 413 are equally acceptable answers to an over-limit message"""
+    sts = tuple(("4xx" if 400 <= x < 500 else x) for x in out_statuses(r["out"]) if x != 100)
+    return (tuple((q["t"], q["u"], q["v"], tuple(q["h"]), q["b"]) for q in r["reqs"]), sts, bool(r["closed_before_fin"]))
 
 
 def short(b, n=120):
@@ -280,6 +295,7 @@ def judge_server_result(prefix, data, r, ext, stats, limits=None):
     i = 0
     optional = False
     stopped = False
+    suspect = None       # the previous message was delivered "correctly" only because its decoded body is empty, see below
     for k, m in enumerate(msgs):
         ctx = "message #%d at offset %d of stream %s" % (k, m.start, short(data, 400))
         v = m.verdict
@@ -305,7 +321,10 @@ def judge_server_result(prefix, data, r, ext, stats, limits=None):
             break
         # accept or either with a defined parse
         if i >= len(got):
-            if v == 'accept' and not optional and not (unknown_method and not ext):
+            if suspect and not optional:
+                viol.append((prefix + ":" + suspect, "the framing bytes of the previous message (empty decoded body) were not consumed and got parsed as a request, "
+                             "so this message was not delivered; %s" % ctx))
+            elif v == 'accept' and not optional and not (unknown_method and not ext):
                 st = sts[i] if i < len(sts) else None
                 viol.append((prefix + ":valid-request-rejected:" + primary_feature(m),
                              "a request the RFC grammar produces was not delivered (response status %s); features=%s; %s" % (st, sorted(m.features), ctx)))
@@ -320,6 +339,10 @@ def judge_server_result(prefix, data, r, ext, stats, limits=None):
             stats["either_delivered"] = stats.get("either_delivered", 0) + 1
         et = gen.KNOWN_TYPES.get(m.method, gen.EXT_TYPE)
         ok = True
+        if suspect and (q["t"] != et or q["u"] != m.target):
+            viol.append((prefix + ":" + suspect, "the framing bytes of the previous message (empty decoded body) were not consumed and got parsed as a request: %s; %s" % (describe_req(q), ctx)))
+            stopped = True
+            break
         if q["t"] != et:
             viol.append((prefix + ":method-mismatch", "expected %r (type %#x) delivered type %#x; %s" % (m.method, et, q["t"], ctx)))
             ok = False
@@ -347,6 +370,17 @@ def judge_server_result(prefix, data, r, ext, stats, limits=None):
             break
         if m.closes:
             optional = True
+        suspect = None
+        if m.wire_body > 0 and not m.body:
+            # nothing distinguishes "body read and empty" from "body framing ignored" in the delivered request; the next message tells
+            if m.method in (b"HEAD", b"TRACE"):
+                suspect = "request-body-ignored:" + m.method.decode()
+            elif m.framing == 'chunked' and 'te-leading-htab' in m.features:
+                suspect = "te-value-not-normalised-misframed"
+            elif m.framing == 'chunked' and te_not_plain(m):
+                suspect = "te-list-ending-chunked-misframed"
+            elif unknown_method and not ext:
+                suspect = None
     if not stopped and i < len(got):
         viol.append((prefix + ":extra-request-delivered", "delivered %d requests but the stream contains %d complete messages; extra: %s; stream %s" % (
             len(got), i, describe_req(got[i]), short(data, 400))))
@@ -410,6 +444,7 @@ def judge_client_result(prefix, c, r, stats):
     obs = client_observed(r, len(c.requests))
     pos = 0
     state = 'active'
+    suspect = None
     for i, method in enumerate(c.requests):
         o = obs[i]
         if state != 'active':
@@ -422,9 +457,11 @@ def judge_client_result(prefix, c, r, stats):
         if v == 'incomplete':
             if o["kind"] == 'delivered':
                 if m.interim and o["code"] in [x.code for x in m.interim]:
-                    key = "interim-1xx-treated-as-final"
+                    key = "interim-1xx-treated-as-final:%d" % o["code"]
                 elif no_length_conn_header(m) and o["b"] == b"":
                     key = "no-length-with-connection-field-treated-as-empty"
+                elif 'te-not-chunked-close-delimited' in m.features and ref._field_values(m.headers, b"content-length"):
+                    key = "te-not-chunked-content-length-used"
                 elif m.phase in ('body-cl', 'chunk-data', 'chunk-line', 'trailers') or m.framing in ('cl', 'chunked'):
                     key = "truncated-response-delivered"
                 else:
@@ -447,6 +484,11 @@ def judge_client_result(prefix, c, r, stats):
             stats["opaque"] = stats.get("opaque", 0) + 1
             state = 'opaque'
             continue
+        if suspect and (o["kind"] != 'delivered' or o["code"] != m.code):
+            viol.append((prefix + ":" + suspect, "the body framing bytes of the previous response (empty decoded body) were not consumed and were taken for this "
+                         "request's response: %s; %s" % (describe_obs(o), ctx)))
+            state = 'dead'
+            continue
         if o["kind"] != 'delivered':
             if v == 'accept':
                 if o["kind"] == 'pending':
@@ -464,7 +506,7 @@ def judge_client_result(prefix, c, r, stats):
         ok = True
         if o["code"] != m.code:
             if m.interim and o["code"] in [x.code for x in m.interim]:
-                viol.append((prefix + ":interim-1xx-treated-as-final", "%s but the final response is %d; %s" % (describe_obs(o), m.code, ctx)))
+                viol.append((prefix + ":interim-1xx-treated-as-final:%d" % o["code"], "%s but the final response is %d; %s" % (describe_obs(o), m.code, ctx)))
             else:
                 viol.append((prefix + ":status-mismatch", "expected %d, %s; %s" % (m.code, describe_obs(o), ctx)))
             state = 'dead'
@@ -476,16 +518,19 @@ def judge_client_result(prefix, c, r, stats):
         ih = []
         for x in m.interim:
             ih += x.headers
-        if ih and o["h"] == ih + m.headers:
+        goth = o["h"]
+        if ih and goth[:len(ih)] == ih and len(goth) >= len(ih) + len(m.headers):
             viol.append((prefix + ":interim-headers-merged-into-final", "fields of the interim response(s) %s appear among the final response's fields; %s" % (short(ih), ctx)))
-        else:
-            compare_fields(prefix, m, m.headers, o["h"], viol, ctx)
+            goth = goth[len(ih):]
+        compare_fields(prefix, m, m.headers, goth, viol, ctx)
         if o["b"] != m.body:
             ok = False
             if m.framing == 'chunked' and te_not_plain(m):
                 key = "te-list-ending-chunked-misframed"
             elif no_length_conn_header(m) and o["b"] == b"":
                 key = "no-length-with-connection-field-treated-as-empty"
+            elif 'te-not-chunked-close-delimited' in m.features and ref._field_values(m.headers, b"content-length"):
+                key = "te-not-chunked-content-length-used"
             elif m.framing == 'close' and o["b"] == b"":
                 key = "close-delimited-body-dropped"
             elif method == b"CONNECT" and o["b"] == b"":
@@ -501,6 +546,15 @@ def judge_client_result(prefix, c, r, stats):
         pos = m.end
         if m.closes:
             state = 'closed'
+        suspect = None
+        if m.wire_body > 0 and not m.body:
+            # "body read and empty" and "body framing ignored" look the same in the callback; the next request tells
+            if method == b"CONNECT":
+                suspect = "connect-non2xx-body-ignored"
+            elif m.framing == 'chunked' and 'te-leading-htab' in m.features:
+                suspect = "te-value-not-normalised-misframed"
+            elif m.framing == 'chunked' and te_not_plain(m):
+                suspect = "te-list-ending-chunked-misframed"
     return viol
 
 
@@ -554,7 +608,7 @@ def generic_replay(info, judge_case):
     wd = vlib.workdir(prop)
     path = os.path.join(wd, "%s-replay-line.script" % prop)
     open(path, "w").write(line + "\n")
-    outs = vlib.run_jobs(res, FLAVOR, HARNESS, [dict(args=["--arg", path], tag="%s-replay-line" % prop)])
+    outs = vlib.run_jobs(res, FLAVOR, HARNESS, [dict(args=["--arg", path], tag="%s-replay-line" % prop)], env_extra=asan_env())
     sys.stdout.write(open(outs[0]["out"]).read()[-4000:])
     sys.stderr.write(open(outs[0]["err"]).read()[-6000:])
     if any(v["key"] == info["key"] for v in res.viol):
@@ -565,7 +619,7 @@ def generic_replay(info, judge_case):
 
 
 # ----------------------------------------------------------------- C25 size-limit oracle
-READ_QUANTUM = 4096      # CALIBRATED: one evbuffer_read() moves at most EVBUFFER_MAX_READ_DEFAULT (4096) bytes
+READ_QUANTUM = 16384     # CALIBRATED: a bufferevent sets its input evbuffer's max_read to max_single_read (16384): one read event moves at most that
 SLACK = 256
 
 
@@ -743,3 +797,35 @@ def judge_limits_client(prefix, c, r, stats):
         break
     _buffer_bound(prefix, cfg, r, last, viol, ctx0)
     return viol, band
+
+
+def run_batched(res, prop, case_iter, tier, batch, judge_case, account):
+    """Pull cases from the generator `batch` at a time (bounded memory), run them, judge them, drop them."""
+    nexec = 0
+    b = 0
+    chunk = []
+
+    def flush():
+        nonlocal nexec, b, chunk
+        if not chunk:
+            return
+        nexec += run_cases(res, prop, chunk, "%s-b%d" % (tier, b))
+        for c in chunk:
+            if len(c.results) != len(c.segs):
+                res.add_stat("cases_without_trace", len(c.segs) - len(c.results))
+                continue
+            account(c, res)
+            for k, t in judge_case(c, res):
+                if sum(1 for v in res.viol if v["key"] == k) < 3:
+                    res.add_viol(k, t, case_replay(prop, c))
+        b += 1
+        chunk = []
+    for c in case_iter:
+        chunk.append(c)
+        if len(chunk) >= batch:
+            flush()
+    flush()
+    res.evaluations = nexec
+    missing = res.stats.get("cases_without_trace", 0)
+    if missing:
+        res.inconclusive.append("%d executions produced no trace" % missing)
